@@ -37,13 +37,14 @@ What is mirrored, statement by statement:
 
 Modelled, not verified (parameters): the handler table (shape + behaviour of each
 method; behaviours complete exactly once — `ok`, `fail`, `panic`, and `slow`/`late`
-= `ok` after 2 s / 40 s through the service's timer), the route function outcome
+= `ok` after 2 s / 42 s through the service's timer), the route function outcome
 (`Cfg.route`), the directory (`Cfg.dir`: name ↦ type and whether an actor lives
 behind the PID), JSON decoding (`Payload.valid v | undecodable`), result
 serialisation (`Result.data origin group method v` stands for the bytes of
 `{"s":origin,"m":method,"v":v}`), ids below 2^32 (`uint32(msg.ID)` is the identity).
 Delays are nominal milliseconds: the timeout is placed at 31000 (any instant in
-(30000, 31000] gives the same observations at the 5 s granularity of the harness).
+(30000, 31000] gives the same observations at the 5 s granularity of the harness);
+no delay is a multiple of 5 s, so nothing is due exactly when the harness observes.
 -/
 namespace Cell2v.ClientServe
 
@@ -117,7 +118,7 @@ inductive Effect
   deriving DecidableEq, Repr
 
 def slowMs : Nat := 2000
-def lateMs : Nat := 40000
+def lateMs : Nat := 42000
 /-- `RequestTimeout` -/
 def requestTimeout : Nat := 30000
 /-- nominal instant of the expiry scan that completes a silent request -/
@@ -307,5 +308,40 @@ def reqCount (conn id : Nat) : List Op → Nat
 
 def wireCount (conn id : Nat) (l : List (Nat × Nat × Result)) : Nat :=
   (l.filter fun x => decide (x.1 = conn ∧ x.2.1 = id)).length
+
+/-! ## the configuration of the correspondence run (harness/c02) -/
+
+/-- the handler zoo registered for every service type of the run -/
+def zoo (g m : String) : Option Handler :=
+  if g ≠ "zoo" then none
+  else if m = "echo" then some ⟨.request, .ok⟩
+  else if m = "fail" then some ⟨.request, .fail⟩
+  else if m = "boom" then some ⟨.request, .panic⟩
+  else if m = "slow" then some ⟨.request, .slow⟩
+  else if m = "late" then some ⟨.request, .late⟩
+  else if m = "tell" then some ⟨.notify, .ok⟩
+  else none
+
+/-- front `gate-1`; backs `chat-1`, `chat-2` (type chat, routed by the session key `chatid`),
+`hall-1` (type hall, no route rule: `defaultRoute` picks the first working instance); `chat-9` is
+listed in the directory but no actor lives behind its PID -/
+def tieCfg : Cfg where
+  frontName := "gate-1"
+  frontType := "gate"
+  handlers := fun t g m => if t = "gate" ∨ t = "chat" ∨ t = "hall" then zoo g m else none
+  dir := fun n =>
+    if n = "gate-1" then some ⟨"gate", true⟩
+    else if n = "chat-1" ∨ n = "chat-2" then some ⟨"chat", true⟩
+    else if n = "hall-1" then some ⟨"hall", true⟩
+    else if n = "chat-9" then some ⟨"chat", false⟩
+    else none
+  route := fun t s =>
+    if t = "chat" then
+      (match s.key with
+       | some k => if k = "" then "no_service" else k
+       | none => "no_service")
+    else if t = "hall" then "hall-1"
+    else if t = "gate" then "gate-1"
+    else "no_service"
 
 end Cell2v.ClientServe
